@@ -39,6 +39,7 @@ func (s *slot) Parse(ctx *parsley.Context, lrc data.IntMap, pos parsley.Pos) (pa
 
 type buildOpts struct {
 	Memo             bool // honour Memo flags
+	RefMemo          bool // use the harness's reference memo table instead of combinator.Memoize
 	Interp           bool // bind the harness interpreter to every sequence
 	CloneBeforeRTrim bool // causal-test shim for the open RightTrim finding
 	Order            []int
@@ -262,7 +263,11 @@ func build(g *Grammar, o *buildOpts) *built {
 			if o.Wrap != nil {
 				p = o.Wrap(i, nd, "inner", p)
 			}
-			p = combinator.Memoize(p)
+			if o.RefMemo {
+				p = &refMemo{p: p, tab: map[*parsley.Context]map[parsley.Pos]*refEntry{}}
+			} else {
+				p = combinator.Memoize(p)
+			}
 			b.NumMemo++
 		}
 		if o.Wrap != nil {
@@ -272,6 +277,38 @@ func build(g *Grammar, o *buildOpts) *built {
 	}
 	b.Root = b.Slots[g.Root]
 	return b
+}
+
+// refMemo is the reference model of Memoize for left-recursion-free grammars: one table
+// per context and position, the stored (node, curtailing set, error) handed back as is
+// (same object identity as the library's cache, so in-place writes by other combinators
+// show up in both alike), a stored list's capacity clipped.
+type refEntry struct {
+	n   parsley.Node
+	cp  data.IntSet
+	err parsley.Error
+}
+
+type refMemo struct {
+	p   parsley.Parser
+	tab map[*parsley.Context]map[parsley.Pos]*refEntry
+}
+
+func (m *refMemo) Parse(ctx *parsley.Context, lrc data.IntMap, pos parsley.Pos) (parsley.Node, data.IntSet, parsley.Error) {
+	t := m.tab[ctx]
+	if t == nil {
+		t = map[parsley.Pos]*refEntry{}
+		m.tab[ctx] = t
+	}
+	if e, ok := t[pos]; ok {
+		return e.n, e.cp, e.err
+	}
+	n, cp, err := m.p.Parse(ctx, lrc, pos)
+	if nl, ok := n.(ast.NodeList); ok {
+		n = nl[:len(nl):len(nl)]
+	}
+	t[pos] = &refEntry{n, cp, err}
+	return n, cp, err
 }
 
 // ---- analysis -------------------------------------------------------------------------
